@@ -25,6 +25,7 @@ import (
 	"fmt"
 	"net"
 	"os"
+	"runtime/debug"
 	"sort"
 	"sync"
 	"sync/atomic"
@@ -136,6 +137,15 @@ type ccStation struct {
 	pubs    [][32]byte
 	prefixT *prefix.Transport
 	ipCtr   uint32
+	// the station has ONE sweeper (a ticker in the main loop): the cases, which run concurrently on their own
+	// phantoms, take turns in calling RemoveOldRegistrations
+	sweepMu sync.Mutex
+}
+
+func (s *ccStation) sweep() {
+	s.sweepMu.Lock()
+	defer s.sweepMu.Unlock()
+	s.rm.RemoveOldRegistrations()
 }
 
 func ccNewKey() (priv, pub [32]byte, err error) {
@@ -453,7 +463,11 @@ func ccRun(s *ccStation, c ccCase) (res ccRes) {
 	t0 := time.Now()
 	defer func() {
 		if r := recover(); r != nil {
-			res.Err = fmt.Sprintf("panic: %v", r)
+			st := string(debug.Stack())
+			if len(st) > 1800 {
+				st = st[:1800]
+			}
+			res.Err = fmt.Sprintf("panic: %v\n%s", r, st)
 		}
 		res.Ms = time.Since(t0).Milliseconds()
 	}()
@@ -667,14 +681,14 @@ func ccRun(s *ccStation, c ccCase) (res ccRes) {
 				if !s.rm.VerifC02AgeKey(obj, 7*time.Hour) {
 					sr.Note = "expire_missing"
 				}
-				s.rm.RemoveOldRegistrations()
+				s.sweep()
 			}
 		case "sweep":
-			s.rm.RemoveOldRegistrations()
+			s.sweep()
 		case "advance":
 			// seven hours pass for everything tracked on the two phantoms of this case, then the real sweep
 			s.rm.VerifC02AgePhantoms([]string{phantom.String(), other.String()}, 7*time.Hour)
-			s.rm.RemoveOldRegistrations()
+			s.sweep()
 		case "accept":
 			if accepted {
 				sr.Note = "already accepted"
@@ -796,7 +810,7 @@ func ccRun(s *ccStation, c ccCase) (res ccRes) {
 	}
 	// let the lifetime of everything this case tracked elapse: the shared registry stays small
 	s.rm.VerifC02AgePhantoms([]string{phantom.String(), other.String()}, 7*time.Hour)
-	s.rm.RemoveOldRegistrations()
+	s.sweep()
 	return
 }
 
